@@ -51,6 +51,19 @@ def parseOps : Nat → List String → Option (List MaskOp)
     | none => none
   | _, _ => none
 
+def parseReg : Nat → List String → Option (List RegOp)
+  | _, [] => some []
+  | 0, _ => none
+  | fuel + 1, "C" :: name :: rest =>
+    match takeFloats 3 rest with
+    | some ([a, b, c], r) => (parseReg fuel r).map (fun ops => RegOp.create name a b c :: ops)
+    | _ => none
+  | fuel + 1, "U" :: name :: rest =>
+    match takeFloats 6 rest with
+    | some (st, r) => (parseReg fuel r).map (fun ops => RegOp.use name st :: ops)
+    | none => none
+  | _, _ => none
+
 /-- requests (floats as bit patterns):
  `c11const`                                   → earthR earthF earthE
  `c11create latd lond alt`                    → `create_station` from degrees: centre offset (3), orientation matrix (9), stored radians/alt (3)
@@ -64,7 +77,9 @@ def parseOps : Nat → List String → Option (List MaskOp)
  `c11maskrun <arg> <op>*`                     → a station created with `mask=<arg>` then driven through the operations:
       <arg> = `absent` | `eseq` | `seq n a1 e1 … an en` | `arr n a1 e1 … an en`;
       <op> = `A n a1 e1 …` (assign a table) | `N` (assign None) | `P i a e` (write column i in place) | `Q azim` (get_mask);
-      reply `raises` or `<store after construction> | <reply>* | <final store>` with <store> = `none` | `junk` | `t<n>,a1,e1,…` -/
+      reply `raises` or `<store after construction> | <reply>* | <final store>` with <store> = `none` | `junk` | `t<n>,a1,e1,…`
+ `c11reg <op>*`                               → a history of `C name latd lond alt` (create_station, possibly under a name already used) and
+      `U name x y z vx vy vz` (a parent-frame state seen from the station of that name): per `U` the 12 floats cartesian + spherical joined by `,`, or `unknown` -/
 def handle : List String → Option String
   | ["c11const"] => some (fsToStr [earthR, earthF, earthE])
   | "c11geo" :: rest => some <|
@@ -121,6 +136,14 @@ def handle : List String → Option String
         | none => "raises"
         | some (s0, s1, replies) => joinWith " " ([storeStr s0, "|"] ++ replies.map replyStr ++ ["|", storeStr s1])
       | none => "bad-op"
+    | none => "bad-op"
+  | "c11reg" :: rest => some <|
+    match parseReg rest.length rest with
+    | some ops =>
+      joinWith " " ((regRun [] ops).2.map (fun r =>
+        match r with
+        | some v => joinWith "," (v.map fToStr)
+        | none => "unknown"))
     | none => "bad-op"
   | _ => none
 
